@@ -90,7 +90,7 @@ class Ctx:
         this observation; it only counts if known_findings.json lists that finding as open."""
         if explained_by is not None:
             f = self.findings.get(explained_by)
-            if f is not None and f.get('state') == 'open' and f.get('property') == self.prop:
+            if f is not None and f.get('state') == 'open' and self.prop in _as_list(f.get('property')):
                 self.known_hits[explained_by] = self.known_hits.get(explained_by, 0) + 1
                 self.known_examples.setdefault(explained_by, record)
                 return
@@ -151,6 +151,10 @@ class Ctx:
             except OSError:
                 pass
         shutil.rmtree(self.scratch, ignore_errors=True)
+
+
+def _as_list(x):
+    return x if isinstance(x, list) else [x]
 
 
 def load_findings() -> Dict[str, dict]:
